@@ -21,6 +21,7 @@ import (
 	"io"
 	"log/slog"
 	"math"
+	"strings"
 	"sync/atomic"
 	"time"
 
@@ -28,6 +29,7 @@ import (
 	"go.uber.org/multierr"
 	pb "google.golang.org/protobuf/proto"
 
+	"github.com/oxia-db/oxia/common/compare"
 	"github.com/oxia-db/oxia/common/constant"
 	time2 "github.com/oxia-db/oxia/common/time"
 
@@ -639,9 +641,45 @@ func (d *db) applyDeleteRange(batch WriteBatch, notifications *notifications, de
 		notifications.DeletedRange(delReq.StartInclusive, delReq.EndExclusive)
 	}
 
-	it, err := batch.RangeScan(delReq.StartInclusive, delReq.EndExclusive)
+	for _, part := range splitAroundInternalKeys(delReq.StartInclusive, delReq.EndExclusive) {
+		if err := d.applyDeleteRangePart(batch, part[0], part[1], updateOperationCallback); err != nil {
+			return nil, err
+		}
+	}
+
+	d.log.Debug(
+		"Applied delete range operation",
+		slog.String("key-start", delReq.StartInclusive),
+		slog.String("key-end", delReq.EndExclusive),
+	)
+	return &proto.DeleteRangeResponse{Status: proto.Status_OK}, nil
+}
+
+var (
+	// In key order the internal keys are exactly the block of keys whose first span is "__oxia"
+	internalKeysStart = []byte(constant.InternalKeyPrefix)
+	internalKeysEnd   = []byte(strings.TrimSuffix(constant.InternalKeyPrefix, "/") + "\x00/")
+)
+
+// splitAroundInternalKeys returns the parts of a delete range that lie outside the internal key space.
+// A range that starts inside it is a server-side operation (e.g. session cleanup) and is left alone.
+func splitAroundInternalKeys(startInclusive, endExclusive string) [][2]string {
+	start, end := []byte(startInclusive), []byte(endExclusive)
+	if compare.CompareWithSlash(start, internalKeysStart) >= 0 || compare.CompareWithSlash(end, internalKeysStart) <= 0 {
+		// starts inside or after the internal keys, or ends before them
+		return [][2]string{{startInclusive, endExclusive}}
+	}
+	parts := [][2]string{{startInclusive, string(internalKeysStart)}}
+	if compare.CompareWithSlash(end, internalKeysEnd) > 0 {
+		parts = append(parts, [2]string{string(internalKeysEnd), endExclusive})
+	}
+	return parts
+}
+
+func (*db) applyDeleteRangePart(batch WriteBatch, startInclusive, endExclusive string, updateOperationCallback UpdateOperationCallback) error {
+	it, err := batch.RangeScan(startInclusive, endExclusive)
 	if err != nil {
-		return nil, err
+		return err
 	}
 	var validKeys []string
 	var validKeysNum = 0
@@ -653,40 +691,35 @@ func (d *db) applyDeleteRange(batch WriteBatch, notifications *notifications, de
 		}
 		value, err := it.Value()
 		if err != nil {
-			return nil, errors.Wrap(multierr.Combine(err, it.Close()), "oxia db: failed to get value on delete range")
+			return errors.Wrap(multierr.Combine(err, it.Close()), "oxia db: failed to get value on delete range")
 		}
 		se := proto.StorageEntryFromVTPool()
 		if err = Deserialize(value, se); err != nil {
 			se.ReturnToVTPool()
-			return nil, err
+			return multierr.Combine(err, it.Close())
 		}
 		if err = updateOperationCallback.OnDeleteWithEntry(batch, key, se); err != nil {
 			se.ReturnToVTPool()
-			return nil, errors.Wrap(multierr.Combine(err, it.Close()), "oxia db: failed to callback on delete range")
+			return errors.Wrap(multierr.Combine(err, it.Close()), "oxia db: failed to callback on delete range")
 		}
 		se.ReturnToVTPool()
 	}
 	if err := it.Close(); err != nil {
-		return nil, errors.Wrap(err, "oxia db: failed to close iterator on delete range")
+		return errors.Wrap(err, "oxia db: failed to close iterator on delete range")
 	}
 	if validKeysNum > DeleteRangeThreshold {
-		if err := batch.DeleteRange(delReq.StartInclusive, delReq.EndExclusive); err != nil {
-			return nil, errors.Wrap(err, "oxia db: failed to delete range")
+		if err := batch.DeleteRange(startInclusive, endExclusive); err != nil {
+			return errors.Wrap(err, "oxia db: failed to delete range")
 		}
 	} else {
 		for _, key := range validKeys {
 			if err := batch.Delete(key); err != nil {
-				return nil, errors.Wrap(err, "oxia db: failed to delete range")
+				return errors.Wrap(err, "oxia db: failed to delete range")
 			}
 		}
 	}
 
-	d.log.Debug(
-		"Applied delete range operation",
-		slog.String("key-start", delReq.StartInclusive),
-		slog.String("key-end", delReq.EndExclusive),
-	)
-	return &proto.DeleteRangeResponse{Status: proto.Status_OK}, nil
+	return nil
 }
 
 func applyGet(kv KV, getReq *proto.GetRequest) (*proto.GetResponse, error) {
